@@ -423,6 +423,7 @@ func init() {
 			"(E6.oversize-contained) a message that fails to serialise is skipped, counted and does not touch the connection; (E6.last-action-wins) de-duplication is keyed by the path's local key and End-of-RIB bypasses it. Also: (E2.send-side-copy) the 2-octet-AS send conversion edits a private copy of the attribute list that the packer shares between the UPDATEs of one group; (E6.last-action-wins) the recording pass is unconditional.",
 		Not: "Per-NLRI worst-case size arithmetic, boundary sizes and the equivalence of the packed messages with the change list over all inputs are not decided.",
 		Run: func(c *Ctx) {
+			c.ruleRatchets("C11")
 			c.ruleCageReuse()
 			c.ruleNexthopKey()
 			c.ruleSizeBudget()
